@@ -261,9 +261,25 @@ def host_guards(cyclic):
   def run():
     import z3
     rb = _rb()
-    N, size, k, b, shards = z3.Int('N'), z3.Int('size'), 3, z3.Int('b'), 1
+    N, size, b = z3.Int('N'), z3.Int('size'), z3.Int('b')
     base = [N >= 1, size >= 0, size <= N, b >= 1]
     out = []
+    ok, detail, n = True, [], 0
+    # the guards are shared by the sharded wrappers, which pass shards = number of devices and the TOTAL batch: capacity, count and batch are PER SHARD
+    for shards, k in ((1, 3), (2, 3), (3, 2), (4, 1)):
+      ok_, detail_, n_ = _guards_at(rb, cyclic, N, size, b, base, shards, k)
+      ok, detail, n = ok and ok_, detail + detail_, n + n_
+    if not ok:
+      return Result(REFUTED, '; '.join(detail)[:600], replay=_replay_guards(cyclic))
+    return Result(PROVED, '%d paths of the real check_can_insert / check_can_sample, symbolic capacity, count and batch; shards in {1,2,3,4}' % n, stats={'paths': n})
+  return Obligation('C17/Queue.check_can/guards[%s]' % ('cyclic' if cyclic else 'fifo'),
+                    'brax.training.replay_buffers:QueueBase.check_can_insert,Queue.check_can_sample',
+                    "per shard (shards in {1,2,3,4}; the wrappers pass the total batch): insert raises iff batch > capacity, else _size' = min(N, _size + k); sample raises iff _size < batch "
+                    "(refuses to sample more than it holds), else _size' = _size - batch (non-cyclic) or unchanged (cyclic); all N, _size, batch", run, backend='path', budget=120)
+
+
+def _guards_at(rb, cyclic, N, size, b, base, shards, k):
+    import z3
 
     def mk():
       s = _Self()
@@ -288,7 +304,7 @@ def host_guards(cyclic):
         v, m = px.valid(base + p.pc, z3.And(N >= k, new == z3.If(size + k < N, size + k, N)))
       if v != 'proved':
         ok = False
-        detail.append('check_can_insert path %s: %s %s' % (p.outcome, v, m))
+        detail.append("check_can_insert[shards=%d] path %s: %s %s" % (shards, p.outcome, v, m))
     # sample: raises iff _size < b ; otherwise _size' = _size - b (non cyclic) / unchanged (cyclic)
     def run_sample():
       s = mk()
@@ -304,35 +320,31 @@ def host_guards(cyclic):
       if v != 'proved':
         ok = False
         detail.append('check_can_sample path %s: %s %s' % (p.outcome, v, m))
-    n = len(paths) + len(paths2)
-    if not ok:
-      return Result(REFUTED, '; '.join(detail)[:600], replay=_replay_guards(cyclic))
-    return Result(PROVED, '%d paths of the real check_can_insert / check_can_sample, symbolic capacity, count and batch' % n, stats={'paths': n})
-  return Obligation('C17/Queue.check_can/guards[%s]' % ('cyclic' if cyclic else 'fifo'),
-                    'brax.training.replay_buffers:QueueBase.check_can_insert,Queue.check_can_sample',
-                    "insert raises iff batch > capacity, else _size' = min(N, _size + k); sample raises iff _size < batch (refuses to sample more than it holds), "
-                    "else _size' = _size - batch (non-cyclic) or unchanged (cyclic); all N, _size, batch", run, backend='path', budget=120)
+    return ok, detail, len(paths) + len(paths2)
 
 
 def _replay_guards(cyclic):
+  """the real guards, per-shard bookkeeping against a plain counter, for 1 and 2 shards (the wrappers pass the total batch and the device count)"""
   rb = _rb()
-  for N in (1, 2, 3):
-    for b in (1, 2, 3):
-      q = rb.Queue(N, jp.zeros((1,)), b, cyclic=cyclic)
-      st = q.init(jax.random.PRNGKey(0))
-      held = 0
-      for step in range(4):
-        try:
-          q.check_can_sample(st, 1)
-          if held < b:
-            return {'reproduced': True, 'what': 'sample accepted with %d held < batch %d (N=%d)' % (held, b, N)}
-          if not cyclic:
-            held -= b
-        except ValueError:
-          if held >= b:
-            return {'reproduced': True, 'what': 'sample refused with %d held >= batch %d (N=%d)' % (held, b, N)}
-        q.check_can_insert(st, (np.zeros((1, 1)),), 1)
-        held = min(N, held + 1)
+  for shards in (1, 2):
+    for N in (1, 2, 3):
+      for b in (1, 2, 3):
+        q = rb.Queue(N, jp.zeros((1,)), b, cyclic=cyclic)
+        st = q.init(jax.random.PRNGKey(0))
+        held = 0
+        for step in range(6):
+          try:
+            q.check_can_sample(st, shards)
+            if held < b:
+              return {'reproduced': True, 'what': 'sample accepted with %d held < batch %d per shard (N=%d, shards=%d)' % (held, b, N, shards)}
+            if not cyclic:
+              held -= b
+          except ValueError:
+            if held >= b:
+              return {'reproduced': True, 'what': 'sample refused with %d held >= batch %d per shard (N=%d, shards=%d)' % (held, b, N, shards)}
+          k = 1 + step % N
+          q.check_can_insert(st, (np.zeros((k * shards, 1)),), shards)
+          held = min(N, held + k)
   return {'reproduced': False}
 
 
